@@ -17,9 +17,7 @@ structure Conn where
   /-- only the unregistration requests of the connection are held -/
   heldUnreg : Bool := false
   deferred : List Deferred := []
-  /-- registrations for the signal made by hand on this connection (one user of the server's table each:
-      `Signals.recipients` lists the connection once per user), and the events sent for them so far -/
-  raw : Nat := 0
+  /-- the events sent so far for the registrations made by hand on this connection (`St.table`) -/
   rawWire : Nat := 0
 
 structure St where
@@ -27,6 +25,10 @@ structure St where
   subs : List (Nat × Nat) := []      -- global subscriber id ↦ (connection, index in that connection's machine)
   acked : List Nat := []             -- subscribers whose SubscribeID has returned (as seen by the harness)
   osubs : List (Nat × Nat) := []     -- subscribers of the other object ↦ (connection, index in that connection's `o` machine)
+  /-- the server's table of users as far as it is made by hand (`sg.rawreg`, `sg.other`): the model's `addUser`,
+      `removeUser` and `recipients` (Model/Signals.lean; Props/C13 `no_cross_signal`, `remove_keeps_others`) -/
+  table : List User := []
+  nextUid : Nat := 700001
 
 partial def drain (c : C) : C := if c.delivered < c.log.length then drain (deliver c) else c
 
@@ -157,8 +159,10 @@ def run (st : St) (args : List String) : St × String :=
     | none => (st, "bad-op")
   | ["sg.emit", p] =>
     let conns := st.conns.map (fun k =>
-      { k with c := drain (emit k.c p.toNat!), o := drain (if k.c.registered then noise k.o else k.o),
-               rawWire := k.rawWire + k.raw })
+      { k with c := drain (emit k.c p.toNat!), o := drain (if k.c.registered then noise k.o else k.o) })
+    -- one event per user of the signal in the table made by hand, to that user's connection
+    let conns := (List.range conns.length).zip conns |>.map (fun (i, k) =>
+      { k with rawWire := k.rawWire + ((recipients st.table 102).filter (· == i)).length })
     ({ st with conns := conns }, "ok")
   | ["sg.oemit", p] =>
     ({ st with conns := st.conns.map (fun k => otherOp k (fun o => emit o p.toNat!)) }, "ok")
@@ -206,21 +210,35 @@ def run (st : St) (args : List String) : St × String :=
     -- a registration for another signal of the object on this connection: its reply is other traffic; the user table
     -- gets an entry that no emission of this signal concerns (Props/C13: remove_keeps_others, no_cross_signal)
     match st.conns[k.toNat!]? with
-    | some c => (setConn st k.toNat! { c with c := drain (noise c.c) }, "ok")
+    | some c =>
+      match addUser st.table ⟨st.nextUid, 999, k.toNat!⟩ with
+      | some t => ({ setConn st k.toNat! { c with c := drain (noise c.c) } with table := t, nextUid := st.nextUid + 1 }, "ok")
+      | none => (st, "error:duplicate")
     | none => (st, "bad-op")
   | ["sg.rawreg", k] =>
     match st.conns[k.toNat!]? with
-    | some c => (setConn st k.toNat! { c with c := drain (noise c.c), raw := c.raw + 1 }, "ok")
+    | some c =>
+      match addUser st.table ⟨st.nextUid, 102, k.toNat!⟩ with
+      | some t => ({ setConn st k.toNat! { c with c := drain (noise c.c) } with table := t, nextUid := st.nextUid + 1 }, "ok")
+      | none => (st, "error:duplicate")
     | none => (st, "bad-op")
   | ["sg.rawunreg", k] =>
-    match st.conns[k.toNat!]? with
-    | some c => if c.raw == 0 then (st, "bad-op") else (setConn st k.toNat! { c with c := drain (noise c.c), raw := c.raw - 1 }, "ok")
-    | none => (st, "bad-op")
+    -- the newest registration of the signal made by hand on this connection
+    match st.conns[k.toNat!]?, ((st.table.filter (fun u => u.sig == 102 && u.conn == k.toNat!)).map (·.uid)).getLast? with
+    | some c, some uid =>
+      match removeUser st.table uid k.toNat! with
+      | some t => ({ setConn st k.toNat! { c with c := drain (noise c.c) } with table := t }, "ok")
+      | none => (st, "error:unknown user id")
+    | _, _ => (st, "bad-op")
   | ["sg.unother", k] =>
-    -- that registration is given up: again other traffic; the entries of the signal itself stay (remove_keeps_others)
-    match st.conns[k.toNat!]? with
-    | some c => (setConn st k.toNat! { c with c := drain (noise c.c) }, "ok")
-    | none => (st, "bad-op")
+    -- the oldest registration for the other signal is given up: again other traffic; the entries of the signal itself
+    -- stay (remove_keeps_others)
+    match st.conns[k.toNat!]?, ((st.table.filter (fun u => u.sig == 999 && u.conn == k.toNat!)).map (·.uid)).head? with
+    | some c, some uid =>
+      match removeUser st.table uid k.toNat! with
+      | some t => ({ setConn st k.toNat! { c with c := drain (noise c.c) } with table := t }, "ok")
+      | none => (st, "error:unknown user id")
+    | _, _ => (st, "bad-op")
   | ["sg.wire", k] =>
     -- the events of the signal the server has put on the connection: one per emission while registered
     match st.conns[k.toNat!]? with
